@@ -688,3 +688,81 @@ Proof.
   - right. left. destruct S as [S1 S2]. unfold d_st. simpl. rewrite S1. exact S2.
   - contradiction.
 Qed.
+
+(* ---------- concrete witnesses (modules produced by the real compiler, -O0 -g) ---------- *)
+
+(* CALL down(2)
+   PRINT "back"
+   SUB down(n%)
+   IF n% > 0 THEN
+   PRINT n%
+   CALL down(n% - 1)
+   PRINT "up"; n%
+   END IF
+   END SUB *)
+Definition wit_code : list Z :=
+  [5; 0; 0; 0; 6; 100; 23; 0; 0; 0; 0; 60; 5; 0; 0; 0; 26; 52; 43; 0; 0; 60; 27; 2; 2; 91; 23; 0; 1; 0; 0;
+   77; 0; 0; 18; 52; 105; 102; 29; 0; 0; 0; 84; 52; 77; 0; 0; 18; 60; 27; 2; 2; 77; 0; 0; 18; 56; 93; 5;
+   0; 0; 0; 26; 52; 43; 0; 1; 56; 52; 77; 0; 0; 18; 39; 0; 5; 27; 2; 2; 28; 0; 0; 0; 84; 91].
+Definition wit_literals : list str := [[98; 97; 99; 107]; [117; 112]].
+Definition wit_stmts : list (Z * Z) :=
+  [(11, 17); (17, 25); (26, 31); (31, 43); (43, 52); (52, 63); (63, 79); (79, 84); (84, 85)].
+Definition wit_di : dbginfo :=
+  [mkRec 11 17 1 0 0; mkRec 17 25 2 13 1; mkRec 26 31 3 26 2; mkRec 31 43 4 39 3; mkRec 43 52 5 54 4;
+   mkRec 52 63 6 63 5; mkRec 63 79 7 81 6; mkRec 79 84 8 96 7; mkRec 84 85 9 103 8].
+Definition wit_module : module := mkModule wit_code wit_literals [] 0 (Some wit_stmts).
+Definition no_script : script := mkScript [] [] [] [].
+Definition wit_fuel : nat := Z.to_nat 2000.
+
+(* D25: next, issued at line 6 (CALL down(n% - 1)) in the activation n% = 2,
+   returns at line 7 inside the activation n% = 1: one frame deeper, machine
+   running, no user breakpoint involved *)
+Lemma next_skips_calls_refuted :
+  exists m di sc fuel h,
+    loads_clean m = true /\
+    let d := session m di sc fuel h in
+    let d' := exec_cmd m di fuel d CNext in
+    d_status d = Live /\ d_status d' = Live /\ mres (d_m d') = false /\
+    d_bps d = [] /\ d_msgs d' = [] /\ halted (d_st d') = false /\
+    cur_line m di (d_st d) = Some 6 /\ cur_line m di (d_st d') = Some 7 /\
+    depth (d_st d) = 2 /\ depth (d_st d') = 3.
+Proof.
+  exists wit_module, wit_di, no_script, wit_fuel, [CStep; CStep; CStep; CStep].
+  vm_compute. repeat split; reflexivity.
+Qed.
+
+(* PRINT 1
+   x% = 1
+   y% = x% \ (x% - 1)
+   PRINT 2
+   PRINT 3 *)
+Definition wit2_code : list Z :=
+  [5; 0; 0; 0; 6; 100; 23; 0; 0; 0; 2; 52; 56; 60; 27; 2; 2; 56; 95; 0; 0; 72; 0; 0; 72; 0; 0; 56; 93; 25;
+   95; 0; 1; 52; 60; 60; 27; 2; 2; 52; 39; 0; 3; 60; 27; 2; 2; 91].
+Definition wit2_stmts : list (Z * Z) := [(11, 17); (17, 21); (21, 33); (33, 39); (39, 47)].
+Definition wit2_di : dbginfo :=
+  [mkRec 11 17 1 0 0; mkRec 17 21 2 8 1; mkRec 21 33 3 15 2; mkRec 33 39 4 34 3; mkRec 39 47 5 42 4].
+Definition wit2_module : module := mkModule wit2_code [] [] 0 (Some wit2_stmts).
+
+(* D25c: the free run prints once and halts with a trap; continue; continue
+   resumes behind the trapping instruction and prints three times *)
+Lemma transparent_refuted :
+  exists m di sc fuel h sf N,
+    loads_clean m = true /\
+    let d := session m di sc fuel h in
+    d_status d = Live /\ halted (d_st d) = true /\ mres (d_m d) = true /\
+    run m fuel (init_state m sc) 0 = (sf, StHalt, N) /\
+    reason sf = H_TRAP /\
+    length (events sf) = 1%nat /\ length (events (d_st d)) = 3%nat /\ mn (d_m d) > N.
+Proof.
+  exists wit2_module, wit2_di, no_script, wit_fuel, [CContinue; CContinue].
+  eexists. eexists. vm_compute. repeat split; reflexivity.
+Qed.
+
+(* non-vacuity of the guarded theorems: a session that steps, sets and hits a
+   breakpoint and runs to the end without ever driving a finished machine *)
+Lemma session_example :
+  let d := session wit_module wit_di no_script wit_fuel [CStep; CBreak 7; CContinue; CContinue; CDelbr 7; CNext; CContinue] in
+  d_status d = Live /\ mres (d_m d) = false /\ halted (d_st d) = true /\ reason (d_st d) = H_INSTRUCTION /\
+  d_bps d = [] /\ length (events (d_st d)) = 5%nat.
+Proof. vm_compute. repeat split; reflexivity. Qed.
